@@ -42,6 +42,8 @@ type Exec struct {
 	pc        []*Term
 	model     Model // satisfies pc, or nil
 	facts     *factStore
+	clock     *Term
+	sleeps    int
 	usedFresh bool
 
 	inputs    []*Term
